@@ -826,3 +826,8 @@ Proof.
   vm_compute in H. inversion H; subst h'; clear H.
   do 5 (split; [reflexivity|]). split; assumption.
 Qed.
+
+Print Assumptions release_l_spec.
+Print Assumptions alloc_spec.
+Print Assumptions ppf_spec.
+Print Assumptions cached_constant_spec.
